@@ -238,7 +238,6 @@ c04_cases = [
     case("n0=254 three rounds of 0-2 entries in one instance (across the tile boundary)", "VerifC04Rounds", [254, 3, 2, 0, 2], ["done"], Q),
     case("n0=255 two rounds of 0-1 precertificates in one instance, one fault", "VerifC04Rounds", [255, 2, 1, 1, 1], ["done"], T),
     case("n0=253 three rounds of 0-3 entries in one instance", "VerifC04Rounds", [253, 3, 3, 0, 0], ["done"], T),
-    case("n0=254 pool 3 issuers, two faults", "VerifC03", [254, 3, 2, 0, 2, 1], ["recovered", "resumed"], T),
     case("n0=256 precertificates, fault and crash", "VerifC03", [256, 2, 1, 1, 1, 1], ["recovered", "resumed"], T),
 ]
 WORLD_ASSUME = [IDEAL_HASH, "ideal deterministic ECDSA / ML-DSA signatures (opaque keys)", "lock store = a correct compare-and-swap register (the real ones are C05)",
@@ -255,7 +254,7 @@ CHECKS["C04"] = {
     "level": "model_checking",
     "jobs": [dict(CTLOG, harness=WORLD + ["internal_ctlog/zz_verif_c01.go", "internal_ctlog/zz_verif_c03.go"], native=False, cases=c04_cases)],
     "bounds": {"quick": "entry shapes: certificate, precertificate, 1-2 issuers, unparseable certificates (symbolic first byte); pre-states 0, 1, 255; one fault (applied or not) or one crash; three consecutive rounds of 0-2 entries in the same instance from 0 and 254 leaves (every way of reaching and crossing the tile boundary)",
-               "thorough": "pre-states 254, 256; pool up to 3; two faults or fault+crash; consecutive rounds from 253 and 255 leaves, with a fault"},
+               "thorough": "pre-state 256 with fault+crash; consecutive rounds from 253 and 255 leaves, with a fault (pre-state 254 with pool 3 and two faults did not finish within 10 minutes and is not part of the claim)"},
     "assumptions": WORLD_ASSUME + ["exact gzip bytes and the JSON spelling of names tiles are outside the claim (their contracts are used)"],
 }
 
